@@ -483,7 +483,8 @@ static inline int ubuf_block_resize(struct ubuf *ubuf, int offset, int new_size)
     struct ubuf_block *block = ubuf_block_from_ubuf(ubuf);
     if (offset < 0)
         offset += block->total_size;
-    if (unlikely(offset < 0))
+    if (unlikely(offset < 0 || offset > block->total_size ||
+                 new_size < -1))
         return UBASE_ERR_INVALID;
 
     if (new_size != -1) {
